@@ -3,6 +3,7 @@ package main
 // SMT-LIB emission and the solver portfolio (z3 4.8.12, z3 5.1.0 as z3-new, cvc5).
 
 import (
+	"sync/atomic"
 	"bytes"
 	"context"
 	"fmt"
@@ -319,8 +320,12 @@ func dischargeOne(o *Obl, dir string, timeoutS int, all bool) {
 	}
 }
 
+var oblFileSeq int64
+
 func dischargeOne1(o *Obl, dir string, timeoutS int, all bool) {
-	fn := filepath.Join(dir, fileSafe.ReplaceAllString(o.Name, "_")+".smt2")
+	// unique per obligation: two packages may hold functions of the same qualified name (the two copies of
+	// the secp256k1 file), and obligations are discharged in parallel
+	fn := filepath.Join(dir, fmt.Sprintf("%s.%d.smt2", fileSafe.ReplaceAllString(o.Name, "_"), atomic.AddInt64(&oblFileSeq, 1)))
 	o.File = fn
 	txt := o.smt(nil)
 	if len(txt) > 8<<20 {
